@@ -118,9 +118,17 @@ func (w *Worker) runOne(c Case) {
 		timer.Stop()
 	case <-timer.C:
 		// The watchdog only triggers diagnosis; the verdict comes from state.
-		res = w.diagnoseHang(c)
-		res.ID = c.ID
-		b, _ := json.Marshal(res)
+		hres := w.diagnoseHang(c)
+		select {
+		case <-done:
+			// the case finished while it was being diagnosed: it was slow, not stuck
+			if hres.Status == Violated {
+				hres = InconclusiveR("watchdog fired, the case finished during the diagnosis")
+			}
+		default:
+		}
+		hres.ID = c.ID
+		b, _ := json.Marshal(hres)
 		fmt.Fprintf(w.prog, "END %d %s\n", c.ID, b)
 		w.prog.Sync()
 		os.Exit(3)
